@@ -105,16 +105,20 @@ func c04Check(c *Ctx, doc *XElem, path string, choices []int) (nontrivial bool) 
 	var err error
 	st, pan := protect(func() {
 		switch path {
-		case "Xml", "XmlIndent", "Xml-twice":
+		case "Xml", "XmlIndent", "Xml-twice", "Xml-cast":
 			var ms mxj.MapSeq
 			inBuf := []byte(xmlText)
-			ms, err = mxj.NewMapXmlSeq(inBuf)
+			if path == "Xml-cast" {
+				ms, err = mxj.NewMapXmlSeq(inBuf, true) // the decoder's cast flag: numbers and booleans become Go values
+			} else {
+				ms, err = mxj.NewMapXmlSeq(inBuf)
+			}
 			scribble(inBuf)
 			if err != nil {
 				return
 			}
 			switch path {
-			case "Xml":
+			case "Xml", "Xml-cast":
 				out, err = ms.Xml()
 			case "XmlIndent":
 				out, err = ms.XmlIndent("", "  ")
@@ -160,7 +164,7 @@ func c04Check(c *Ctx, doc *XElem, path string, choices []int) (nontrivial bool) 
 	}
 	c.Retain(path, out, cas)
 	// expected stream from the abstract tree; text is trimmed (documented), blank runs are dropped for indented forms
-	exact := path == "Xml" || path == "Xml-twice"
+	exact := path == "Xml" || path == "Xml-twice" || path == "Xml-cast"
 	var exp []string
 	treeTokens(doc, !exact, true, &exp)
 	// output side: text is NOT trimmed, except that the indented forms may add white space to a
@@ -175,6 +179,19 @@ func c04Check(c *Ctx, doc *XElem, path string, choices []int) (nontrivial bool) 
 				}
 			}
 		}
+	}
+	if path == "Xml-cast" && terr == nil {
+		// a cast leaf is written in Go's spelling of the value (1.50 as 1.5): both sides are read as the value
+		// their text denotes; anything else - text dropped, moved or changed - is still a difference
+		canon := func(ts []string) {
+			for i, g := range ts {
+				if strings.HasPrefix(g, "T:") {
+					ts[i] = "T:" + fmt.Sprintf("%v", refCast(g[2:], Cfg{Cast: true}, ""))
+				}
+			}
+		}
+		canon(exp)
+		canon(got)
 	}
 	if terr != nil || !eqStrings(exp, got) {
 		c.Violate(path, "token-stream", shape, cas, choices, fmt.Sprintf("xml=%q\n output=%q\n expected=%v\n   actual=%v err=%v", xmlText, out, exp, got, terr))
@@ -196,6 +213,19 @@ func c04Check(c *Ctx, doc *XElem, path string, choices []int) (nontrivial bool) 
 	}
 	c.Outcome(string(out))
 	return true
+}
+
+// c04AttrRespelled: an attribute value that the cast flag would write back in another spelling (1.50 as 1.5);
+// such documents are left out of the cast path, whose oracle compares start tags verbatim.
+func c04AttrRespelled(doc *XElem) bool {
+	for _, e := range doc.elems() {
+		for _, a := range e.Attrs {
+			if fmt.Sprintf("%v", refCast(a.Value, Cfg{Cast: true}, "")) != a.Value {
+				return true
+			}
+		}
+	}
+	return false
 }
 
 // c04Decos: attributes in every order come from pairs of attribute decorations; items at every position.
@@ -268,10 +298,13 @@ func c04Run(c *Ctx) {
 	if c.Thorough {
 		n1, n2, ech = 5, 4, 3
 	}
-	paths := []string{"Xml", "XmlIndent", "BeautifyXml", "Beautify-Formatted-Xml", "Xml-twice"}
+	paths := []string{"Xml", "XmlIndent", "BeautifyXml", "Beautify-Formatted-Xml", "Xml-twice", "Xml-cast"}
 	applyCfg(Cfg{AttrPrefix: "-", KeyPrefix: "#", EscEnc: true})
 	runDoc := func(doc *XElem) {
 		for _, p := range paths {
+			if p == "Xml-cast" && c04AttrRespelled(doc) {
+				continue
+			}
 			if !c.Mine() {
 				continue
 			}
